@@ -32,7 +32,7 @@ package fiber
 //             "%41"), plus 3000 seeded random patterns with 4 parameters and 20 random fillings each  (< 10 min)
 //
 // Output: `FVC-CASES <requests evaluated> <distinct fillings with a non-empty value>`, one `FVC-FAIL ...` line per
-// failing case (at most 40 are printed, all are counted), and for failing cases explained by a recorded known
+// failing case (at most 40 are printed, all with FVC_C03_ALL=1; all are counted), and for failing cases explained by a recorded known
 // finding one aggregated line `KNOWN-FINDING: property=C03 <what>` per finding (these do not fail the test):
 //   optional-slash-bucket  the route's first literal is exactly 3 bytes, ends in '/', the slash is optional (an optional
 //                          parameter or '*' follows) and the normalised request path is the literal without that slash
